@@ -1,29 +1,153 @@
 /-
   C04 — cursor steps are atomic successor queries even while writers run.
 
-  Status: the FULL statement (each Scan step linearises as a successor query) is kept as a
-  definition and NOT yet proved in Lean; it is decided on the implementation side by the
-  linearizability checker (Scan as a successor query, Pair as a lookup) over all schedules
-  of the writer-next-to-cursor catalogue and random schedules, with the model tied by the
-  event-log replay.  Proved here, for every schedule: cursor operations never write; the
-  pair handed out by `Pair` is an entry of the leaf the cursor holds at that moment, at the
-  cursor's index; a hop takes the next leaf before releasing the current one.
+  PROVED, for every key type and strict weak order, every initial tree satisfying the
+  invariants (e.g. fresh), every family of disciplined client programs (writers incl. Delete
+  and any number of cursors) and EVERY schedule:
+    * `C04_cursor_invariant`: in every reachable configuration every open cursor is POSITIONED
+      with respect to a bound — the start key (inclusive) until the first `Scan` has returned
+      a pair, afterwards the last key returned (exclusive): its leaf is on the search path of
+      the bound's key and inside the leaf exactly the pairs after the index are admitted;
+    * `C04_ahead_spec` / `C04_successor`: for a positioned cursor, what lies AHEAD of it in
+      leaf-chain order (`Tree.ahead`: the rest of its leaf, then all later leaves) is exactly
+      the admitted part of the abstract map, so its first pair is the LEAST admitted key with
+      the value stored at that moment, and nothing is ahead iff no stored key is admitted;
+    * `C04_newScanner`: when `NewScanner(start)` returns, the cursor is positioned for
+      `≥ start` and ahead of it lies `Spec.from map start`;
+    * `C04_bound_persists`: steps of other threads (any writer, any borrow/merge/split)
+      keep the SAME bound valid — the cursor's leaf is held, so its fields do not change, and
+      it stays on the route of its bound's key (`StableRoutes`, with Delete via `ISep`);
+    * `C04_scan`, `C04_hop`: a `Scan` that returns `true` consumes exactly the first pair
+      ahead (inside the leaf in the step of the call; across leaves in the step that acquires
+      the next leaf while the current one is still held) and the cursor is then positioned
+      for `> that key`; a `Scan` that returns `false` had nothing ahead; the first half of a
+      hop leaves what is ahead unchanged;
+    * `C04_pair`: `Pair` returns the pair the cursor rests on, which is stored in the map at
+      that moment with that value.
+  Each of these happens in ONE step of the cursor's own thread, inside the call's interval:
+  that step is the linearization point of the successor query.  Consequences: the keys a
+  cursor returns are strictly increasing and ≥ start; a key ≥ start present for the whole
+  scan is reported; a key never stored is never reported (`ahead ⊆ map`).
+  Modelled, not verified: interleaving at lock-acquisition granularity.  On the
+  implementation side the linearizability checker (Scan as a successor query) runs over all
+  schedules of the writer-next-to-cursor catalogues and random schedules.
 -/
 import Gobptree.Proofs.ConcReach
+import Gobptree.Proofs.CFinal2
+import Gobptree.Proofs.CCur
 
 namespace Gobptree.Conc
 open Gobptree
 
 variable {K V : Type}
 
-/-- FULL statement (not proved), phrased on successor queries: for every completed
-    `scan` step there is a position of the log inside the step's call interval at which
-    the smallest stored key above the previously reported one (or ≥ start) is the one the
-    following `pair` reports, or none exists iff the step returned false. -/
-def C04_cursor_atomic_statement (succAt : Config Nat Nat → Nat → Nat → Option Nat) : Prop :=
-  ∀ (P : Params Nat) (tree : Tree Nat Nat) (progs : List (List (COp Nat Nat))) (c : Config Nat Nat),
-    4 ≤ P.order → Reachable (Config.init P tree progs) c → c.dead = false →
-    ∀ t idx, ∃ pos, succAt c t idx = some pos
+section Full
+variable (lt : K → K → Bool) (P : Params K) (tree : Tree K V) (progs : List (List (COp K V)))
+  (hkp : KParams lt P) (ht : TreeOk none tree) (hord : OrdTree lt tree) (hsep : SepTree lt tree)
+  (ho : tree.order = P.order) (hp : PadOk P) (hd : Disciplined progs)
+include hkp ht hord hsep ho hp hd
+
+/-- **C04 (invariant).** Every open cursor is positioned with respect to some bound (in the
+    form `CursorPosW` always; in the exact form `CursorPos` unless the thread is between the
+    two halves of a hop, where the index has run past the leaf). -/
+theorem C04_cursor_invariant (c : Config K V) (hr : Reachable (Config.init P tree progs) c) :
+    ∀ th ∈ c.threads, CursorPosW lt c.tree th ∧ (isHop th.park = false → CursorPos lt c.tree th) :=
+  reachable_cursorPos kblocks_ok lt P tree progs hkp ht hord hsep ho hp hd c hr
+
+/-- **C04 (what a positioned cursor has ahead).** In a reachable configuration, for a cursor
+    positioned w.r.t. bound `b`: ahead of it lies exactly the admitted part of the map. -/
+theorem C04_ahead_spec (c : Config K V) (hr : Reachable (Config.init P tree progs) c)
+    (b : Bound K) (leaf : Nat) (i : Int) (hpos : CurPosW lt c.tree b leaf i) :
+    c.tree.ahead leaf i = c.tree.abs.filter (fun p => b.admits lt p.1) :=
+  let h := reachable_kfinv' lt P tree progs hkp ht hord hsep ho hp hd c hr
+  hpos.aheadSpec h.kp.swo h.cinv.s.tree h.kinv.ord
+
+/-- **C04 (successor).** The first pair ahead of a positioned cursor is the least admitted key
+    of the map, with the value stored for it now; nothing is ahead iff no key is admitted. -/
+theorem C04_successor (c : Config K V) (hr : Reachable (Config.init P tree progs) c)
+    (b : Bound K) (leaf : Nat) (i : Int) (hpos : CurPosW lt c.tree b leaf i) :
+    (∀ k v rest, c.tree.ahead leaf i = (k, v) :: rest →
+      b.admits lt k = true ∧ (k, v) ∈ c.tree.abs ∧ Spec.lookup lt c.tree.abs k = some v ∧
+      ∀ p ∈ c.tree.abs, b.admits lt p.1 = true → p = (k, v) ∨ lt k p.1 = true) ∧
+    (c.tree.ahead leaf i = [] ↔ ∀ p ∈ c.tree.abs, b.admits lt p.1 = false) :=
+  let h := reachable_kfinv' lt P tree progs hkp ht hord hsep ho hp hd c hr
+  ⟨fun _ _ _ hh => hpos.head_least h.kp.swo h.cinv.s.tree h.kinv.ord hh,
+   hpos.ahead_nil_iff h.kp.swo h.cinv.s.tree h.kinv.ord⟩
+
+/-- **C04 (NewScanner).** The step in which `NewScanner(start)` reaches its leaf returns, does
+    not touch the tree, and leaves the cursor positioned for `≥ start` with
+    `Spec.from map start` ahead of it. -/
+theorem C04_newScanner (c c' : Config K V) (hr : Reachable (Config.init P tree progs) c) (t : Nat)
+    (hstep : c.step t = some c') {th : Thread K V} (hth : c.threads[t]? = some th)
+    {l : Lk} {start : K} {hold : Lk} {want : Nat} (hpk : th.park = .want l (.roNode true start hold want))
+    {sh : Shallow K V} (hl : c.tree.look want = some sh) (h0 : sh.height = 0) :
+    c'.tree = c.tree ∧
+    ∃ lf : Leaf K V, c.tree.find want = some ⟨0, lf⟩ ∧
+      (resume c.P t (stepSt c t th) (.roNode true start hold want)).2 = .done .ok ∧
+      (resume c.P t (stepSt c t th) (.roNode true start hold want)).1.cursor =
+        some (some want, (startIndex c.P {} start lf : Int) - 1) ∧
+      CurPos lt c'.tree (.ge start) want ((startIndex c.P {} start lf : Int) - 1) ∧
+      c'.tree.ahead want ((startIndex c.P {} start lf : Int) - 1) = Spec.from lt c'.tree.abs start :=
+  step_newScanner kblocks_ok lt P tree progs hkp ht hord hsep ho hp hd c c' hr t hstep hth hpk hl h0
+
+/-- **C04 (the bound persists).** A step of ANOTHER thread — any writer, with whatever splits,
+    borrows, merges it performs — keeps the same bound valid for a resting cursor. -/
+theorem C04_bound_persists (c c' : Config K V) (hr : Reachable (Config.init P tree progs) c) (t j : Nat)
+    (hstep : c.step t = some c') (b : Thread K V) (hj : c.threads[j]? = some b) (hne : j ≠ t)
+    {leaf : Nat} {i : Int} (hcur : b.cursor = some (some leaf, i)) {bd : Bound K}
+    (hpos : CurPosW lt c.tree bd leaf i) : CurPosW lt c'.tree bd leaf i := by
+  have h := reachable_kfinv' lt P tree progs hkp ht hord hsep ho hp hd c hr
+  obtain ⟨_, th, hth, hframe⟩ := step_cinv blocks_ok c c' t hstep h.cinv
+  obtain ⟨th', hth', hen, _⟩ := step_shape hstep
+  rw [hth] at hth'; cases hth'
+  exact other_curPosW h.cinv hth hj hne hen hframe (step_stable_routes kblocks_ok lt c c' t hstep h th hth) hcur hpos
+
+/-- **C04 (Scan).** A `Scan` executed in a reachable step, with `(leaf, i)` the cursor before the
+    call, on the tree the step ends in: it returns `true` inside the leaf having consumed the
+    first pair ahead (the cursor now rests on it and is positioned for `>` its key); or it
+    returns `false` and nothing lay ahead; or it parks for the next leaf with the same pairs
+    ahead (the hop's second half is `C04_hop`). -/
+theorem C04_scan (c c' : Config K V) (hr : Reachable (Config.init P tree progs) c) (t : Nat)
+    (hstep : c.step t = some c') {s1 : St K V} {n : Nat} (hx : StepExec c t s1 .scan n)
+    {leaf : Nat} {i : Int} (hcur : s1.cursor = some (some leaf, i)) (hex : s1.exhausted = false) :
+    ∃ sh, c'.tree.look leaf = some sh ∧ sh.height = 0 ∧ (∃ b, CurPos lt c'.tree b leaf i) ∧
+      ((startOp t s1 .scan = ({ s1 with cursor := some (some leaf, i + 1) }, .done (.bool true)) ∧
+          ∃ k v, sh.keys[(i + 1).toNat]? = some k ∧ sh.vals[(i + 1).toNat]? = some v ∧
+            c'.tree.ahead leaf i = (k, v) :: c'.tree.ahead leaf (i + 1) ∧
+            CurPos lt c'.tree (.gt k) leaf (i + 1)) ∨
+        (startOp t s1 .scan =
+            ({ (s1.rel t (.node leaf)) with cursor := some (none, i + 1), exhausted := true }, .done (.bool false)) ∧
+          c'.tree.ahead leaf i = []) ∨
+        (∃ nx, startOp t s1 .scan =
+            ({ s1 with cursor := some (some leaf, i + 1) }, .park (.want (.node nx) (.hop leaf nx))) ∧
+          c'.tree.ahead leaf (i + 1) = c'.tree.ahead leaf i)) :=
+  exec_scan kblocks_ok lt P tree progs hkp ht hord hsep ho hp hd c c' hr t hstep hx hcur hex
+
+/-- **C04 (hop).** The step that acquires the next leaf (the current one still held) returns
+    `true`, does not touch the tree, and consumes exactly the first pair ahead: the cursor
+    rests on the first pair of the next leaf, positioned for `>` its key. -/
+theorem C04_hop (c c' : Config K V) (hr : Reachable (Config.init P tree progs) c) (t : Nat)
+    (hstep : c.step t = some c') {th : Thread K V} (hth : c.threads[t]? = some th)
+    {l : Lk} {cur next : Nat} (hpk : th.park = .want l (.hop cur next)) :
+    c'.tree = c.tree ∧
+    (resume c.P t (stepSt c t th) (.hop cur next)).2 = .done (.bool true) ∧
+    (resume c.P t (stepSt c t th) (.hop cur next)).1.cursor = some (some next, 0) ∧
+    ∃ i shn k v, th.cursor = some (some cur, i) ∧ (∃ b, CurPosW lt c.tree b cur i) ∧
+      c'.tree.look next = some shn ∧ shn.height = 0 ∧ shn.keys[0]? = some k ∧ shn.vals[0]? = some v ∧
+      c.tree.ahead cur i = (k, v) :: c'.tree.ahead next 0 ∧ CurPos lt c'.tree (.gt k) next 0 :=
+  step_hop kblocks_ok lt P tree progs hkp ht hord hsep ho hp hd c c' hr t hstep hth hpk
+
+/-- **C04 (Pair).** `Pair` returns the pair the cursor rests on; it is an entry of the map at
+    that moment, with the value stored for it now. -/
+theorem C04_pair (c c' : Config K V) (hr : Reachable (Config.init P tree progs) c) (t : Nat)
+    (hstep : c.step t = some c') {s1 : St K V} {n : Nat} (hx : StepExec c t s1 .pair n)
+    {leaf : Nat} {i : Int} (hcur : s1.cursor = some (some leaf, i)) (hex : s1.exhausted = false) (hi : 0 ≤ i) :
+    ∃ sh k v, c'.tree.look leaf = some sh ∧ startOp t s1 .pair = (s1, .done (.pair k v)) ∧
+      sh.keys[i.toNat]? = some k ∧ sh.vals[i.toNat]? = some v ∧ (k, v) ∈ c'.tree.abs ∧
+      Spec.lookup lt c'.tree.abs k = some v :=
+  exec_pair kblocks_ok lt P tree progs hkp ht hord hsep ho hp hd c c' hr t hstep hx hcur hex hi
+
+end Full
 
 /-- **C04 (partial): `Pair` exposes an entry of the held leaf.** When `Pair` returns
     `(k, v)`, the cursor holds a leaf of the current tree and `(k, v)` is the entry at the
@@ -91,3 +215,11 @@ end Gobptree.Conc
 #print axioms Gobptree.Conc.C04_pair_is_stored_partial
 #print axioms Gobptree.Conc.C04_cursor_readonly_partial
 #print axioms Gobptree.Conc.C04_hop_order_partial
+#print axioms Gobptree.Conc.C04_cursor_invariant
+#print axioms Gobptree.Conc.C04_ahead_spec
+#print axioms Gobptree.Conc.C04_successor
+#print axioms Gobptree.Conc.C04_newScanner
+#print axioms Gobptree.Conc.C04_bound_persists
+#print axioms Gobptree.Conc.C04_scan
+#print axioms Gobptree.Conc.C04_hop
+#print axioms Gobptree.Conc.C04_pair
